@@ -3,13 +3,46 @@ import gen
 
 from . import common
 
-TRUSTED = ["C07 predicate check_c07 (Model/Checks.v): border styles of the first / last table row of the document and of every page, read back from the output"]
+TRUSTED = ["C07 predicate check_c07 (Model/Checks.v): border styles of the first / last table row of the document and of every page, read back from the output; clause 5 compares the four border styles of every other data-cell edge with the body attributes at the cell's original position"]
 ASSUMPTIONS = ["page_by without column headers is excluded for the top-edge clause, as the quantifier says"]
 
 STYLES = ["single", "double", "thick", "dotted", "dashed"]
 
 
+def directed():
+    """Pages of one data row followed by fuller pages, with per-column / scalar user borders and no column removal: the first
+    page holds a k-line title, so nrow = k + 2 leaves room for one data row there and k + 1 on later pages."""
+    out = []
+    for k in (1, 2, 3):
+        for ncol, sides in ((3, ("bottom",)), (3, ("top",)), (1, ()), (2, ("top", "bottom"))):
+            cols = ["id"] + [f"c{j}" for j in range(ncol - 1)]
+            rows = [[f"#{i}#"] + ["x"] * (ncol - 1) for i in range(2 * k + 4)]
+            body = {"border_first": "double", "border_last": "thick"}
+            for side in sides:
+                body[f"border_{side}"] = [[["dotted", "", "dashed"][j % 3] for j in range(ncol)]]
+            out.append({"df": {"cols": cols, "rows": rows}, "body": body,
+                        "page": {"nrow": k + 2, "border_first": "single", "border_last": "double", "page_title": "first"},
+                        "title": {"text": [f"T{j} title" for j in range(k)]},
+                        "kind": "single", "strategy": "plain", "header_mode": "default"})
+    # one-row groups on their own page ahead of larger ones, the group column kept in the table
+    for ncol in (1, 2):
+        cols = ["id", "g0"] + [f"c{j}" for j in range(ncol - 1)]
+        groups = ["@A1", "@A2", "@A2", "@A2", "@A3", "@A4", "@A4"]
+        rows = [[f"#{i}#", gv] + ["x"] * (ncol - 1) for i, gv in enumerate(groups)]
+        out.append({"df": {"cols": cols, "rows": rows},
+                    "body": {"page_by": ["g0"], "new_page": True, "border_bottom": [["dotted"] + [""] * ncol],
+                             "border_first": "double", "border_last": "thick"},
+                    "page": {"nrow": 10, "border_first": "single", "border_last": "double"},
+                    "kind": "single", "strategy": "page_by", "header_mode": "default"})
+    return out
+
+
+_DIRECTED = directed()
+
+
 def generate(g, i):
+    if i < len(_DIRECTED):
+        return _DIRECTED[i]
     r = g.r
     strategy = r.choice(["plain", "plain", "page_by", "subline"])
     nrows = r.choice([1, 2, 3, 5, 8, 14])
@@ -53,4 +86,4 @@ def signature(spec, result):
 
 
 def run(ctx):
-    return common.run_docprop(ctx, "c07", generate, signature, n_quick=180, n_thorough=3000)
+    return common.run_docprop(ctx, "c07", generate, signature, n_quick=180 + len(_DIRECTED), n_thorough=3000 + len(_DIRECTED))
